@@ -71,6 +71,7 @@ fn n1_fails(vm: &mut Vm<Rec>, _a: i64) -> R {
 }
 
 fn new_vm() -> V {
+    cao_lang::verif_hooks::set_skip_error_trace(true);
     Vm::verif_new_small(Rec::default(), 1 << 16, 10, 4).unwrap()
 }
 
